@@ -26,7 +26,8 @@ CONSTANTS Tokens,        \* the initialised tokens (model values or strings)
           InitSoPin, InitUserPin,   \* PINs the driver sets the tokens up with
           Labels         \* abstract attribute values used by object templates
 
-VARIABLES tok,      \* [Tokens -> [so: Pins, user: Pins \cup {"nopin"}]]
+VARIABLES tok,      \* [Tokens -> [so: Pins, user: Pins \cup {"nopin"}, there: BOOLEAN]]
+                    \* (there = FALSE: the token's files were removed behind the library's back, see Vanish)
           login,    \* [Tokens -> {"none","user","so"}]
           sess,     \* session handle -> [t, rw]
           obj,      \* object id -> [t, tokobj, priv, owner, lab]
@@ -73,7 +74,7 @@ NoOut == <<>>
 
 -----------------------------------------------------------------------------
 Init ==
-    /\ tok    = [t \in Tokens |-> [so |-> InitSoPin, user |-> InitUserPin]]
+    /\ tok    = [t \in Tokens |-> [so |-> InitSoPin, user |-> InitUserPin, there |-> TRUE]]
     /\ login  = [t \in Tokens |-> "none"]
     /\ sess   = <<>>
     /\ obj    = <<>>
@@ -128,10 +129,16 @@ GetSessionInfo(h) ==
     IF h \notin DOMAIN sess THEN Fail("SESSION_HANDLE_INVALID")
     ELSE Ok(<<StateOfH(h)>>) /\ UNCHANGED state
 
+\* Another process (softhsm2-util --delete-token, an administrator) removes the token's files while this library has
+\* sessions on it.  The sessions live on; calls that need the files fail - and a call that fails changes nothing.
+Vanish(t) == /\ tok[t].there /\ tok' = [tok EXCEPT ![t].there = FALSE] /\ Ok(NoOut)
+             /\ UNCHANGED <<login, sess, obj, oh, issued, fop, dead>>
+
 Login(h, u, pin) ==
     IF h \notin DOMAIN sess THEN Fail("SESSION_HANDLE_INVALID")
     ELSE LET t == sess[h].t IN
-         IF u = "so" THEN
+         IF u \in {"so", "user"} /\ ~tok[t].there THEN Fail("GENERAL_ERROR")      \* the PIN cannot be verified
+         ELSE IF u = "so" THEN
               IF \E g \in SessionsOf(t) : ~sess[g].rw THEN Fail("SESSION_READ_ONLY_EXISTS")
               ELSE IF login[t] = "user" THEN Fail("USER_ANOTHER_ALREADY_LOGGED_IN")
               ELSE IF login[t] = "so"   THEN Fail("USER_ALREADY_LOGGED_IN")
@@ -182,6 +189,7 @@ InitToken(t, pin) ==
 InitPIN(h, pin) ==
     IF h \notin DOMAIN sess THEN Fail("SESSION_HANDLE_INVALID")
     ELSE IF StateOfH(h) # "RW_SO" THEN Fail("USER_NOT_LOGGED_IN")
+    ELSE IF ~tok[sess[h].t].there THEN Fail("GENERAL_ERROR")
     ELSE IF ~PinLenOK(pin) THEN Fail("PIN_LEN_RANGE")
     ELSE /\ tok' = [tok EXCEPT ![sess[h].t].user = pin]
          /\ Ok(NoOut)
@@ -191,7 +199,8 @@ SetPIN(h, old, new) ==
     IF h \notin DOMAIN sess THEN Fail("SESSION_HANDLE_INVALID")
     ELSE IF ~PinLenOK(new) THEN Fail("PIN_LEN_RANGE")
     ELSE LET t == sess[h].t  st == StateOfH(h) IN
-         IF st \in {"RW_PUBLIC", "RW_USER"} THEN
+         IF st # "RO_PUBLIC" /\ st # "RO_USER" /\ ~tok[t].there THEN Fail("GENERAL_ERROR")
+         ELSE IF st \in {"RW_PUBLIC", "RW_USER"} THEN
               IF tok[t].user = "nopin" \/ old # tok[t].user THEN Fail("PIN_INCORRECT")
               ELSE tok' = [tok EXCEPT ![t].user = new] /\ Ok(NoOut)
                    /\ UNCHANGED <<login, sess, obj, oh, issued, fop, dead>>
